@@ -23,6 +23,8 @@
 // (e) element types of 64 KiB, 350 KiB, 1 MiB and 4 MiB (huge.go): a reduced small-capacity cover
 // with its own cheap runner.
 //
+// (f) real one-byte elements on buffers of 2^31..3*2^31 slots, one child process each (astro.go).
+//
 // Element types: the deque is generic, so the static element type is an input too. Besides *int,
 // int and string, the cover and a reduced number of walks run over uint8 (1 byte), struct{} (0
 // bytes; single-valued, so only Len/panics/iteration counts/hook state are informative and the
@@ -34,6 +36,7 @@ import (
 	"fmt"
 	"math"
 	"math/bits"
+	"os"
 	"runtime"
 	"runtime/debug"
 	"strconv"
@@ -46,6 +49,10 @@ import (
 )
 
 func main() {
+	if s := os.Getenv(astroEnv); s != "" {
+		astroChildMain(s) // child process of the astro-real group: one scenario, then exit
+		return
+	}
 	vkit.Main("C04", "exploration", func(r *vkit.Report) {
 		r.SetRule("an evaluation = one compared outcome (value | panicked) of one call, including every call of the read-back after each operation " +
 			"and every raw-ring inspection. distinct_nontrivial = distinct pairs (abstract state, operation+argument class) executed, " +
@@ -74,6 +81,7 @@ func main() {
 			hugeWalks(r, sh)
 		}
 		hugeElems(r)
+		astroReal(r)
 		sh.finish()
 	})
 }
@@ -867,8 +875,8 @@ func (x *runner[T]) ring() {
 		return
 	}
 	st := x.d.VerifState()
-	if !st.Allocated || st.Cap == 0 {
-		return
+	if !st.Allocated || st.Cap == 0 || st.Cap > 1<<20 {
+		return // (VerifSlots copies the whole buffer; the astro-real buffers are gigabytes of address space)
 	}
 	n := len(x.model)
 	if st.Front < 0 || st.Front >= st.Cap || n > st.Cap {
